@@ -33,7 +33,9 @@ def _pg():
     if not _m:
         from pgradd.Error import GroupMissingDataError, IncompleteDataError
         from pgradd.GroupAdd.Group import Group
-        _m.update(GMDE=GroupMissingDataError, IDE=IncompleteDataError, Group=Group)
+        from pgradd.GroupAdd.Library import GroupLibrary
+        import pgradd.ThermoChem  # noqa: registers the 'thermochem' property set
+        _m.update(GMDE=GroupMissingDataError, IDE=IncompleteDataError, Group=Group, GroupLibrary=GroupLibrary)
     return _m
 
 
@@ -152,6 +154,31 @@ def core_check(ctx, lib, keys, counts, pollute, fr, label, as_group=()):
                 break
         else:
             continue
+    # Cp/R accepts an array of temperatures (the correlations vectorise it): the estimate must be the same weighted sum,
+    # element by element, for float and integer arrays alike
+    if all(have(g, 'CpoR') for g in groups) and len(Ts) >= 2:
+        for arr in (np.array(Ts[:4], dtype=float), np.array([math.ceil(Ts[0]), math.floor(Ts[1])], dtype=int)):
+            if arr.dtype.kind == 'i' and not (rs and lo <= arr.min() and arr.max() <= hi):
+                continue
+            try:
+                want = [math.fsum(c * quiet(g.get_CpoR, float(t)) for c, g in zip(counts, groups)) for t in arr]
+                scale = [math.fsum(abs(c * quiet(g.get_CpoR, float(t))) for c, g in zip(counts, groups)) for t in arr]
+            except Exception:
+                ctx.event('constituent-evaluation-failed(C05/C14)')
+                break
+            try:
+                got = quiet(est.get_CpoR, arr)
+            except Exception as e:
+                ctx.fail('evaluation-raises:CpoR-array:%s' % type(e).__name__, '[%s] CpoR(%r) raised %s: %s' % (label, arr, type(e).__name__, e))
+                break
+            ctx.count()
+            ctx.event('array-temperatures:%s' % arr.dtype.kind)
+            ok = isinstance(got, np.ndarray) and got.shape == arr.shape and all(
+                abs(float(a) - w) <= 1e-10 * sc + 1e-12 for a, w, sc in zip(got, want, scale))
+            if not ok:
+                ctx.fail('not-the-weighted-sum:CpoR-array', '[%s] CpoR(%r) = %r, element-wise sums of count*group value = %r'
+                         % (label, arr, got, want))
+                break
     # G = H - S
     if all(have(g, 'GoRT') for g in groups):
         for T in Ts[:3]:
@@ -271,6 +298,42 @@ def check_synthetic(ctx, case):
         ('empty' if s is None else 'no-H' if s['H'] is None else 'no-S' if s['S'] is None else
          'no-Cp' if not s['Ts'] else 'full') for s in (specs[i] for i in case['idx']))))
     core_check(ctx, lib, keys, counts, pollute, case['fr'], 'synthetic')
+    sibling_check(ctx, lib, keys, counts, pollute)
+
+
+def sibling_check(ctx, lib, keys, counts, pollute):
+    """data merged into ONE library object must not make another library object return a sum for descriptors it was never
+    given: libraries created empty, and two libraries created from the same contents mapping"""
+    m = _pg()
+    if not keys:
+        return
+    GL = m['GroupLibrary']
+    a, b = GL(None), GL(None)
+    contents = {k: dict(lib[k]) for k in keys[1:]}
+    c, d = GL(None, contents), GL(None, contents)
+    try:
+        a.Update(lib)        # into a library created empty: nothing to conflict with
+        c.Update(lib)        # into a library holding some of the very same correlation objects
+    except Exception as e:
+        ctx.fail('sibling-library:update-raises:%s' % type(e).__name__, 'Update() of a library created empty / from a part of the same '
+                 'data raised %s: %s' % (type(e).__name__, e))
+        return
+    mapping = dict(zip(keys, counts))
+    for name, other, lacking in (('created-empty', b, sorted(keys)), ('created-from-the-same-mapping', d, [keys[0]])):
+        ctx.count()
+        try:
+            other.Estimate(mapping, 'thermochem')
+        except m['GMDE'] as e:
+            got = sorted(str(g) for g in e.groups)
+            if got != lacking:
+                ctx.fail('sibling-library:missing-data-error-wrong-groups', '[%s] error names %s, the library lacks %s' % (name, got, lacking))
+            continue
+        except Exception as e:
+            ctx.fail('sibling-library:estimate-raises:%s' % type(e).__name__, '[%s] %s: %s' % (name, type(e).__name__, e))
+            continue
+        ctx.fail('sibling-library:sum-over-data-it-was-never-given', '[library %s, after Update() of ANOTHER library object] Estimate(%s) '
+                 'returned an object although this library has no data for %s' % (name, mapping, lacking))
+    ctx.event('sibling-libraries-checked')
 
 
 def check_any(ctx, case):
